@@ -649,7 +649,10 @@ Class == LET r == LastRec IN
          ELSE IF r.a = "CompactStale" THEN <<r.a, r.n, blkMax = NegInf, hMin < 0, \E s \in StaleSet : hdel[s] # {}>>
          ELSE IF r.a = "Import" THEN <<r.a, stored' = [stored EXCEPT !["s1"] = @ \cup {[t |-> r.lo, v |-> 2, ty |-> "f"], [t |-> r.hi, v |-> 2, ty |-> "f"]}],
                                       r.hi + 1 > blkMax, blkMax = NegInf, ino' # ino>>
-         ELSE IF r.a = "Reopen" THEN <<r.a, kfset, ino' # ino, wino # ino, TombRel(blkMax), blkMax = NegInf, hInit>>
+         ELSE IF r.a = "Reopen" THEN <<r.a, kfset, ino' # ino, wino # ino, TombRel(blkMax), blkMax = NegInf, hInit,
+                                       \* the per-series head layouts the shutdown has to persist (a series without an in-order
+                                       \*   chunk but with m-mapped out-of-order chunks is stored without a head chunk in a snapshot)
+                                       {<<ino[s] = <<>>, ooh[s] = <<>>, oom[s] = {}>> : s \in Series}>>
          ELSE <<r.a>>
 
 Emit ==
